@@ -75,6 +75,21 @@ class DictProxy(dict):
         """
         return self.dict_field.value_field  # type: ignore
 
+    def __deepcopy__(self, memo: dict) -> "DictProxy":
+        """
+        Copy the entries. The dict field belongs to the schema and is shared with the original; the
+        owning configuration is the copy of the owner when the owner is being copied along.
+        """
+        dup = dict.__new__(type(self))
+        memo[id(self)] = dup
+        dup.cfg = memo.get(id(self.cfg), self.cfg)
+        dup.dict_field = self.dict_field
+        dict.update(
+            dup,
+            ((copy.deepcopy(key, memo), copy.deepcopy(value, memo)) for key, value in self.items()),
+        )
+        return dup
+
     def _is_compatible_proxy(self, other: "DictProxy") -> bool:
         """
         Check if a proxy is compatible with this proxy. Two proxies are compatible when they share
